@@ -96,3 +96,29 @@ CHECK_DEADLOCK FALSE
         "case-insensitive means equality of Rust's str::to_lowercase",
         "sibling nested clauses under And are read as Nested(path, And[...]) (applies recursively)",
     ]
+
+
+def run_c10(v):
+    quick = v.tier == "quick"
+    cfg = _cfg("MC_Rank_run.cfg", f"""SPECIFICATION Spec
+CONSTANT Pairs = {"FALSE" if quick else "TRUE"}
+INVARIANT Antisymmetric
+INVARIANT Total
+INVARIANT Transitive
+INVARIANT MissingLast
+CHECK_DEADLOCK FALSE
+""")
+    mc = lib.tlc_mc("MC_Rank.tla", cfg, timeout=3000, coverage=False)
+    lib.require_mc_ok(mc, "MC_Rank")
+    s = _family(v, "rank", {"C10"}, 8 if quick else 100, 30 if quick else 60)
+    v.coverage.update({
+        "states": mc["distinct"], "transitions": mc["states"],
+        "traces_validated_against_impl": s["scenarios"], "requests_judged": s["requests"],
+        "mc_bounds": "CmpKeys is a strict total order with missing-last for all 1-key (thorough: 2-key) plans over multi-valued/missing i64 and keyword values, 3 slots, score ties; LnS accuracy ASSUMEs",
+        "samples": s["samples"], "exhaustive": False,
+    })
+    v.assumptions += [
+        "scores are judged in fixed point (scale 1e4) with tolerance 1 % + 0.002; order is judged exactly on the f32 bit patterns",
+        "absolute BM25 values are asserted on corpora without deleted documents (segment statistics unambiguous) and for queries without function_score wrappers",
+        "k1 = 1.2, b = 0.75 (the harness's IndexOptions)",
+    ]
